@@ -42,3 +42,19 @@ class PlainDS(Source):
 
 
 FUNCS = {'plain': plain, 'shaped': shaped, 'nested': nested}
+
+
+def plain_pred(x):
+    return x != 'plain(a)'
+
+
+def by_fn(x):
+    return x[-2]
+
+
+def other_ids():
+    return ('p', 'q')
+
+
+def split_fn(id, x):
+    return [(id + '-0', x), (id + '-1', x)]
